@@ -10,15 +10,13 @@ import (
 )
 
 func TestS(t *testing.T) {
-	for _, text := range []string{"\"\\\xff\"", "\"\\\xff", "x = \"\\\xff\";", "syntax = \"proto3\";\nmessage M { string s = 1 [default = \"\\\xff\"]; }"} {
-		func() {
-			defer func() {
-				if p := recover(); p != nil {
-					fmt.Printf("PANIC for %q: %v\n", text, p)
-				}
-			}()
-			_, err := parser.Parse("a.proto", strings.NewReader(text), reporter.NewHandler(reporter.NewReporter(func(e reporter.ErrorWithPos) error { return nil }, nil)))
-			fmt.Printf("ok for %q: %v\n", text, err)
-		}()
+	text := "syntax = \"proto3\";\n/*\t\t\t€*/ message /*\t\t\t€*/\tM { string s = 1 [json_name = \"xxx€\"]; } // \t\t\t€\n\t\t\t€ enum E { Z = 0; }\n"
+	n := 0
+	root, err := parser.Parse("a.proto", strings.NewReader(text), reporter.NewHandler(reporter.NewReporter(func(e reporter.ErrorWithPos) error { n++; fmt.Println(e); return nil }, nil)))
+	fmt.Println(root != nil, err, n)
+	seq := root.Items()
+	for it, ok := seq.First(); ok; it, ok = seq.Next(it) {
+		info := root.ItemInfo(it)
+		fmt.Printf("%q %v\n", info.RawText(), info.Start())
 	}
 }
